@@ -1,1 +1,700 @@
-(* todo *)
+(** C12 -- proofs about [to_symbolic] (the model of to_symbolic_model):
+
+      * soundness: whenever the conversion returns equations, they evaluate -- at EVERY resolved
+        environment -- to the numeric right-hand side in variable order ([to_symbolic_sound],
+        for every value of the facts: whichever order the derived values are converted in, a
+        returned result is never wrong);
+      * the cache tables the equations are assembled from ([build_tables]) against the model's
+        own stoichiometries: equal to the right-hand side with every computed coefficient at its
+        current value iff the parameter-only computed coefficients have the value they had when the
+        cache was built ([tables_sum], [every_parameter_setting_partial]);
+      * symbols: the equations mention base symbols only ([to_symbolic_syms]);
+      * success: a convertible model converts under the dependency-order fact whatever the
+        declaration order ([convertible_converts]);
+      * a state-dependent computed coefficient: converted by the repaired statement (covered by
+        soundness through [dyn_part_val]); refused under the pre-fix fact ([dyn_raises_old]). *)
+From Coq Require Import QArith Qabs Lqa.
+From MxlBase Require Import ListX.
+From Symbolic Require Import Expr ExprProofs SymModel.
+Open Scope Q_scope.
+
+Lemma Forall2_imp {A B} (R1 R2 : A -> B -> Prop) l1 l2 :
+  (forall a b, R1 a b -> R2 a b) -> Forall2 R1 l1 l2 -> Forall2 R2 l1 l2.
+Proof. intros H F. induction F; constructor; [apply H; assumption|assumption]. Qed.
+
+(** ---- association lists ----------------------------------------------------------------- *)
+Lemma lookup_In {A} k (l : list (name * A)) v : lookup k l = Some v -> In (k, v) l.
+Proof.
+  induction l as [|[k' v'] l IH]; cbn [lookup]; intros H; [discriminate|].
+  destruct (N.eqb k' k) eqn:E.
+  - apply N.eqb_eq in E. injection H as H. subst. left. reflexivity.
+  - right. apply IH. exact H.
+Qed.
+
+Lemma lookup_None {A} k (l : list (name * A)) : lookup k l = None <-> ~ In k (map fst l).
+Proof.
+  induction l as [|[k' v'] l IH]; cbn [lookup map fst In].
+  - split; [intros _ []|reflexivity].
+  - destruct (N.eqb k' k) eqn:E.
+    + apply N.eqb_eq in E. split; [discriminate|]. intros H. exfalso. apply H. left. exact E.
+    + apply N.eqb_neq in E. rewrite IH. split; intros H; [intros [H1|H1]; [exact (E H1)|exact (H H1)]|].
+      intros H1. apply H. right. exact H1.
+Qed.
+
+Lemma lookup_Some_key {A} k (l : list (name * A)) : In k (map fst l) -> lookup k l <> None.
+Proof. intros H E. apply lookup_None in E. exact (E H). Qed.
+
+Lemma lookup_key {A} k (l : list (name * A)) v : lookup k l = Some v -> In k (map fst l).
+Proof. intros H. apply lookup_In in H. apply in_map_iff. exists (k, v). split; [reflexivity|exact H]. Qed.
+
+Lemma lookup_all_Forall2 {A} (tab : list (name * A)) args es :
+  lookup_all tab args = Some es -> Forall2 (fun e a => lookup a tab = Some e) es args.
+Proof.
+  revert es. induction args as [|a args IH]; cbn [lookup_all]; intros es H.
+  - injection H as H. subst. constructor.
+  - destruct (lookup a tab) as [e|] eqn:E; [|discriminate].
+    destruct (lookup_all tab args) as [es'|]; [|discriminate].
+    injection H as H. subst. constructor; [exact E|apply IH; reflexivity].
+Qed.
+
+Lemma lookup_all_total {A} (tab : list (name * A)) args :
+  (forall a, In a args -> lookup a tab <> None) ->
+  exists es, lookup_all tab args = Some es /\ length es = length args.
+Proof.
+  induction args as [|a args IH]; cbn [lookup_all]; intros H.
+  - exists []. split; reflexivity.
+  - destruct (lookup a tab) as [e|] eqn:E; [|exfalso; apply (H a); [left; reflexivity|exact E]].
+    destruct IH as [es [E1 E2]]; [intros b Hb; apply H; right; exact Hb|].
+    rewrite E1. exists (e :: es). split; [reflexivity|cbn [length]; rewrite E2; reflexivity].
+Qed.
+
+Lemma lookup_base names k e :
+  lookup k (map (fun n => (n, ESym n)) names) = Some e -> e = ESym k /\ In k names.
+Proof.
+  induction names as [|n names IH]; cbn [map lookup]; intros H; [discriminate|].
+  destruct (N.eqb n k) eqn:E.
+  - apply N.eqb_eq in E. injection H as H. subst. split; [reflexivity|left; reflexivity].
+  - destruct (IH H) as [H1 H2]. split; [exact H1|right; exact H2].
+Qed.
+
+Lemma pick_in_order_In order ders k c : In (k, c) (pick_in_order order ders) -> In (k, c) ders.
+Proof.
+  induction order as [|k' order IH]; cbn [pick_in_order]; intros H; [destruct H|].
+  destruct (lookup k' ders) as [c'|] eqn:E.
+  - destruct H as [H|H]; [injection H as H1 H2; subst; apply lookup_In; exact E|apply IH; exact H].
+  - apply IH. exact H.
+Qed.
+
+Lemma der_sequence_In F m ds k c : der_sequence F m = Some ds -> In (k, c) ds -> In (k, c) (m_der m).
+Proof.
+  unfold der_sequence. destruct (sf_order F); intros H Hin; try discriminate; injection H as H; subst.
+  - exact Hin.
+  - eapply pick_in_order_In. exact Hin.
+Qed.
+
+(** ======================================================================================== *)
+(** soundness *)
+Section Sound.
+  Variable fsym : fnid -> list expr -> option expr.
+  Variable fsem : fnid -> list Q -> Q.
+  (** the per-function translation is sound (property C06's subject) *)
+  Hypothesis fsym_sound : forall f es e env, fsym f es = Some e -> eval env e == fsem f (map (eval env) es).
+  (** a rate function is a function of the VALUES of its arguments *)
+  Hypothesis fsem_proper : forall f vs ws, Forall2 Qeq vs ws -> fsem f vs == fsem f ws.
+
+  Variable env : name -> Q.
+
+  Definition TabOk (tab : list (name * expr)) : Prop := forall k e, lookup k tab = Some e -> eval env e == env k.
+
+  Lemma TabOk_cons tab k e : TabOk tab -> eval env e == env k -> TabOk ((k, e) :: tab).
+  Proof.
+    intros Ht He k' e'. cbn [lookup]. destruct (N.eqb k k') eqn:E; intros H.
+    - apply N.eqb_eq in E. injection H as H. subst. exact He.
+    - apply Ht. exact H.
+  Qed.
+
+  Lemma TabOk_base names : TabOk (map (fun n => (n, ESym n)) names).
+  Proof. intros k e H. apply lookup_base in H. destruct H as [H _]. subst. reflexivity. Qed.
+
+  Lemma lookup_all_vals tab args es :
+    TabOk tab -> lookup_all tab args = Some es -> Forall2 Qeq (map (eval env) es) (map env args).
+  Proof.
+    intros Ht H. apply lookup_all_Forall2 in H.
+    induction H as [|e a es args H1 _ IH]; cbn [map]; constructor; [apply Ht; exact H1|exact IH].
+  Qed.
+
+  Lemma conv_one_sound tab c e :
+    TabOk tab -> conv_one fsym tab c = inr e -> eval env e == fsem (c_fn c) (map env (c_args c)).
+  Proof.
+    unfold conv_one. intros Ht H.
+    destruct (lookup_all tab (c_args c)) as [es|] eqn:E; [|discriminate].
+    destruct (fsym (c_fn c) es) as [e'|] eqn:E2; [|discriminate].
+    injection H as H. subst e'.
+    rewrite (fsym_sound _ _ _ env E2). apply fsem_proper. eapply lookup_all_vals; eassumption.
+  Qed.
+
+  Definition CompsOk (cs : list (name * comp)) : Prop :=
+    forall k c, In (k, c) cs -> env k == fsem (c_fn c) (map env (c_args c)).
+
+  Lemma insert_derived_ok ds : forall tab tab',
+    TabOk tab -> CompsOk ds -> insert_derived fsym ds tab = inr tab' -> TabOk tab'.
+  Proof.
+    induction ds as [|[k c] ds IH]; cbn [insert_derived]; intros tab tab' Ht Hc H.
+    - injection H as H. subst. exact Ht.
+    - destruct (conv_one fsym tab c) as [x|e] eqn:E; [discriminate|].
+      eapply IH; [| |exact H].
+      + apply TabOk_cons; [exact Ht|]. rewrite (conv_one_sound _ _ _ Ht E). symmetry. apply Hc. left. reflexivity.
+      + intros k' c' Hin. apply Hc. right. exact Hin.
+  Qed.
+
+  Lemma conv_rxns_ok tab rs : forall rx,
+    TabOk tab -> CompsOk rs -> conv_rxns fsym tab rs = inr rx -> TabOk rx.
+  Proof.
+    induction rs as [|[k c] rs IH]; cbn [conv_rxns]; intros rx Ht Hc H.
+    - injection H as H. subst. intros k e Hl. discriminate.
+    - destruct (conv_one fsym tab c) as [x|e] eqn:E; [discriminate|].
+      destruct (conv_rxns fsym tab rs) as [x|l] eqn:E2; [discriminate|].
+      injection H as H. subst rx. apply TabOk_cons.
+      + eapply IH; [exact Ht| |reflexivity]. intros k' c' Hin. apply Hc. right. exact Hin.
+      + rewrite (conv_one_sound _ _ _ Ht E). symmetry. apply Hc. left. reflexivity.
+  Qed.
+
+  Lemma eq_get_cons eqs cpd e v :
+    eq_get ((cpd, e) :: eqs) v = if N.eqb cpd v then e else eq_get eqs v.
+  Proof. unfold eq_get. cbn [lookup]. destruct (N.eqb cpd v); reflexivity. Qed.
+
+  Lemma stat_row_val rxns cpd st : forall eqs eqs',
+    TabOk rxns -> stat_row rxns cpd st eqs = inr eqs' ->
+    forall v, eval env (eq_get eqs' v) == eval env (eq_get eqs v) + (if N.eqb cpd v then row_sum env st else 0).
+  Proof.
+    induction st as [|[r n] st IH]; cbn [stat_row row_sum]; intros eqs eqs' Hr H v.
+    - injection H as H. subst. destruct (N.eqb cpd v); ring.
+    - destruct (lookup r rxns) as [re|] eqn:E; [|discriminate].
+      rewrite (IH _ _ Hr H v). rewrite eq_get_cons.
+      destruct (N.eqb cpd v) eqn:Ev.
+      + apply N.eqb_eq in Ev. subst v. cbn [eval]. rewrite (Hr _ _ E). ring.
+      + ring.
+  Qed.
+
+  Lemma stat_loop_val rxns tbl : forall eqs eqs',
+    TabOk rxns -> stat_loop rxns tbl eqs = inr eqs' ->
+    forall v, eval env (eq_get eqs' v) == eval env (eq_get eqs v) + stat_sum env tbl v.
+  Proof.
+    induction tbl as [|[cpd st] tbl IH]; cbn [stat_loop stat_sum]; intros eqs eqs' Hr H v.
+    - injection H as H. subst. ring.
+    - destruct (stat_row rxns cpd st eqs) as [x|eqs1] eqn:E; [discriminate|].
+      rewrite (IH _ _ Hr H v). rewrite (stat_row_val _ _ _ _ _ Hr E v). ring.
+  Qed.
+
+  Lemma dyn_loop_none tab rxns tbl :
+    dyn_loop tab rxns tbl = None -> forall cpd row, In (cpd, row) tbl -> row = [].
+  Proof.
+    induction tbl as [|[c [|[r d] row]] tbl IH]; cbn [dyn_loop]; intros H cpd row' Hin.
+    - destruct Hin.
+    - destruct Hin as [Hin|Hin]; [injection Hin as _ Hin; symmetry; exact Hin|exact (IH H _ _ Hin)].
+    - exfalso. destruct (lookup_all tab (c_args d)); [destruct (lookup r rxns)|]; discriminate.
+  Qed.
+
+  Lemma dyn_sum_empty (tbl : list (name * list (name * comp))) v :
+    (forall cpd row, In (cpd, row) tbl -> row = []) -> dyn_sum fsem env tbl v == 0.
+  Proof.
+    induction tbl as [|[c row] tbl IH]; cbn [dyn_sum]; intros H; [reflexivity|].
+    rewrite IH; [|intros c' r' Hin; apply (H c'); right; exact Hin].
+    rewrite (H c row (or_introl eq_refl)). cbn [dyn_row_sum]. destruct (N.eqb c v); ring.
+  Qed.
+
+  Lemma dyn_row_val tab rxns cpd ds : forall eqs eqs',
+    TabOk tab -> TabOk rxns -> dyn_row fsym tab rxns cpd ds eqs = inr eqs' ->
+    forall v, eval env (eq_get eqs' v) == eval env (eq_get eqs v) + (if N.eqb cpd v then dyn_row_sum fsem env ds else 0).
+  Proof.
+    induction ds as [|[r c] ds IH]; cbn [dyn_row dyn_row_sum]; intros eqs eqs' Ht Hr H v.
+    - injection H as H. subst. destruct (N.eqb cpd v); ring.
+    - destruct (conv_one fsym tab c) as [x|ce] eqn:Ec; [discriminate|].
+      destruct (lookup r rxns) as [re|] eqn:E; [|discriminate].
+      rewrite (IH _ _ Ht Hr H v). rewrite eq_get_cons.
+      destruct (N.eqb cpd v) eqn:Ev.
+      + apply N.eqb_eq in Ev. subst v. cbn [eval]. rewrite (Hr _ _ E). rewrite (conv_one_sound _ _ _ Ht Ec). ring.
+      + ring.
+  Qed.
+
+  Lemma dyn_loop_coef_val tab rxns tbl : forall eqs eqs',
+    TabOk tab -> TabOk rxns -> dyn_loop_coef fsym tab rxns tbl eqs = inr eqs' ->
+    forall v, eval env (eq_get eqs' v) == eval env (eq_get eqs v) + dyn_sum fsem env tbl v.
+  Proof.
+    induction tbl as [|[cpd ds] tbl IH]; cbn [dyn_loop_coef dyn_sum]; intros eqs eqs' Ht Hr H v.
+    - injection H as H. subst. ring.
+    - destruct (dyn_row fsym tab rxns cpd ds eqs) as [x|eqs1] eqn:E; [discriminate|].
+      rewrite (IH _ _ Ht Hr H v). rewrite (dyn_row_val _ _ _ _ _ _ Ht Hr E v). ring.
+  Qed.
+
+  Lemma dyn_part_val F tab rxns tbl eqs eqs' :
+    TabOk tab -> TabOk rxns -> dyn_part fsym F tab rxns tbl eqs = inr eqs' ->
+    forall v, eval env (eq_get eqs' v) == eval env (eq_get eqs v) + dyn_sum fsem env tbl v.
+  Proof.
+    unfold dyn_part. intros Ht Hr H v. destruct (sf_dyn F).
+    - destruct (dyn_loop tab rxns tbl) as [x|] eqn:E; [discriminate|]. injection H as H. subst eqs'.
+      rewrite (dyn_sum_empty _ v (dyn_loop_none _ _ _ E)). ring.
+    - exact (dyn_loop_coef_val _ _ _ _ _ Ht Hr H v).
+    - discriminate.
+  Qed.
+
+  Lemma lookup_all_eq_get eqs vars l :
+    lookup_all eqs vars = Some l -> Forall2 (fun e v => e = eq_get eqs v) l vars.
+  Proof.
+    intros H. apply lookup_all_Forall2 in H.
+    induction H as [|e a es args H1 _ IH]; constructor; [unfold eq_get; rewrite H1; reflexivity|exact IH].
+  Qed.
+
+  (** MAIN: a returned result is right, at this (arbitrary) resolved environment *)
+  Theorem to_symbolic_sound F m eqs :
+    Resolved fsem m env ->
+    to_symbolic fsym F m = SymOk eqs ->
+    Forall2 (fun e v => eval env e == num_rhs fsem m env v) eqs (m_vars m).
+  Proof.
+    intros [Hder Hrxn] H. unfold to_symbolic in H.
+    destruct (der_sequence F m) as [ds|] eqn:Eds; [|discriminate].
+    destruct (insert_derived fsym ds (base_symbols m)) as [x|tab] eqn:Etab; [discriminate|].
+    destruct (conv_rxns fsym tab (m_rxn m)) as [x|rxns] eqn:Erx; [discriminate|].
+    destruct (stat_loop rxns (m_stoich m) []) as [x|eqs0] eqn:Est; [discriminate|].
+    destruct (dyn_part fsym F tab rxns (m_dyn m) eqs0) as [x|eqs1] eqn:Edy; [discriminate|].
+    destruct (lookup_all eqs1 (m_vars m)) as [l|] eqn:El; [|discriminate].
+    injection H as H. subst l.
+    assert (Htab : TabOk tab).
+    { eapply insert_derived_ok; [apply TabOk_base| |exact Etab].
+      intros k c Hin. apply Hder. eapply der_sequence_In; eassumption. }
+    assert (Hrx : TabOk rxns) by (eapply conv_rxns_ok; [exact Htab|exact Hrxn|exact Erx]).
+    pose proof (stat_loop_val _ _ _ _ Hrx Est) as Hval.
+    pose proof (dyn_part_val _ _ _ _ _ _ Htab Hrx Edy) as Hdy.
+    apply lookup_all_eq_get in El.
+    induction El as [|e v es vs He _ IH]; constructor; [|exact IH].
+    subst e. rewrite Hdy, Hval. unfold num_rhs.
+    unfold eq_get. cbn [lookup eval]. ring.
+  Qed.
+
+  (** pre-fix fact DynListTimesRate: a state-dependent computed coefficient is refused (modelled
+      on non-Integer rate expressions, see SymModel.dyn_part) *)
+  Lemma dyn_raises_old F m cpd row :
+    sf_dyn F = DynListTimesRate ->
+    In (cpd, row) (m_dyn m) -> row <> [] -> forall eqs, to_symbolic fsym F m <> SymOk eqs.
+  Proof.
+    intros HF Hin Hne eqs H. unfold to_symbolic in H.
+    destruct (der_sequence F m) as [ds|]; [|discriminate].
+    destruct (insert_derived fsym ds (base_symbols m)) as [x|tab]; [discriminate|].
+    destruct (conv_rxns fsym tab (m_rxn m)) as [x|rxns]; [discriminate|].
+    destruct (stat_loop rxns (m_stoich m) []) as [x|eqs0]; [discriminate|].
+    unfold dyn_part in H. rewrite HF in H.
+    destruct (dyn_loop tab rxns (m_dyn m)) as [x|] eqn:Edy; [discriminate|].
+    apply Hne. eapply dyn_loop_none; eassumption.
+  Qed.
+
+  (** ---- the cache tables against the model's own stoichiometries --------------------------- *)
+  Variable parnames : list name.
+  Variable env0 : name -> Q.
+
+  (** a parameter-only computed coefficient has (at [env]) the value it had when the cache was built *)
+  Definition CoefStable (f : coef) : Prop :=
+    match f with
+    | CNum _ => True
+    | CFun c => is_static parnames c = true ->
+                fsem (c_fn c) (map env (c_args c)) == fsem (c_fn c) (map env0 (c_args c))
+    end.
+
+  Lemma row_sum_app st r n : row_sum env (st ++ [(r, n)]) == row_sum env st + n * env r.
+  Proof. induction st as [|[r' n'] st IH]; cbn [app row_sum]; [ring|rewrite IH; ring]. Qed.
+
+  Lemma dyn_row_sum_app ds r c :
+    dyn_row_sum fsem env (ds ++ [(r, c)]) == dyn_row_sum fsem env ds + fsem (c_fn c) (map env (c_args c)) * env r.
+  Proof. induction ds as [|[r' c'] ds IH]; cbn [app dyn_row_sum]; [ring|rewrite IH; ring]. Qed.
+
+  Lemma stat_sum_add cpd r n tbl v :
+    stat_sum env (tbl_add cpd r n tbl) v == stat_sum env tbl v + (if N.eqb cpd v then n * env r else 0).
+  Proof.
+    induction tbl as [|[c row] tbl IH]; cbn [tbl_add stat_sum].
+    - cbn [row_sum]. destruct (N.eqb cpd v); ring.
+    - destruct (N.eqb c cpd) eqn:E; cbn [stat_sum].
+      + apply N.eqb_eq in E. subst c. destruct (N.eqb cpd v); [rewrite row_sum_app|]; ring.
+      + rewrite IH. ring.
+  Qed.
+
+  Lemma dyn_sum_add cpd r c tbl v :
+    dyn_sum fsem env (tbl_add cpd r c tbl) v ==
+    dyn_sum fsem env tbl v + (if N.eqb cpd v then fsem (c_fn c) (map env (c_args c)) * env r else 0).
+  Proof.
+    induction tbl as [|[c' row] tbl IH]; cbn [tbl_add dyn_sum].
+    - cbn [dyn_row_sum]. destruct (N.eqb cpd v); ring.
+    - destruct (N.eqb c' cpd) eqn:E; cbn [dyn_sum].
+      + apply N.eqb_eq in E. subst c'. destruct (N.eqb cpd v); [rewrite dyn_row_sum_app|]; ring.
+      + rewrite IH. ring.
+  Qed.
+
+  Lemma stat_sum_setdefault cpd (tbl : list (name * list (name * Q))) v :
+    stat_sum env (setdefault cpd tbl) v == stat_sum env tbl v.
+  Proof.
+    induction tbl as [|[c row] tbl IH]; cbn [setdefault stat_sum].
+    - cbn [row_sum]. destruct (N.eqb cpd v); ring.
+    - destruct (N.eqb c cpd); cbn [stat_sum]; [reflexivity|rewrite IH; reflexivity].
+  Qed.
+
+  Definition tables_sum (acc : tables) (v : name) : Q := stat_sum env (fst acc) v + dyn_sum fsem env (snd acc) v.
+
+  Lemma add_factor_sum rxn cpd f acc v :
+    CoefStable f ->
+    tables_sum (add_factor fsem parnames env0 rxn cpd f acc) v ==
+    tables_sum acc v + (if N.eqb cpd v then coef_val fsem env f * env rxn else 0).
+  Proof.
+    unfold tables_sum, add_factor. intros Hs. destruct f as [q|c]; cbn [fst snd coef_val].
+    - rewrite stat_sum_add. ring.
+    - cbn [CoefStable] in Hs. destruct (is_static parnames c) eqn:E; cbn [fst snd].
+      + rewrite stat_sum_add. destruct (N.eqb cpd v); [rewrite (Hs eq_refl)|]; ring.
+      + rewrite stat_sum_setdefault, dyn_sum_add. ring.
+  Qed.
+
+  Lemma add_rxn_sum rxn sto : forall acc v,
+    (forall cpd f, In (cpd, f) sto -> CoefStable f) ->
+    tables_sum (add_rxn fsem parnames env0 rxn sto acc) v == tables_sum acc v + raw_row_sum fsem env rxn sto v.
+  Proof.
+    induction sto as [|[cpd f] sto IH]; cbn [add_rxn raw_row_sum]; intros acc v Hs.
+    - ring.
+    - rewrite IH; [|intros c' f' Hin; apply (Hs c'); right; exact Hin].
+      rewrite add_factor_sum; [ring|]. apply (Hs cpd). left. reflexivity.
+  Qed.
+
+  Lemma build_from_sum raw : forall acc v,
+    (forall rxn sto cpd f, In (rxn, sto) raw -> In (cpd, f) sto -> CoefStable f) ->
+    tables_sum (build_from fsem parnames env0 raw acc) v == tables_sum acc v + raw_rhs fsem env raw v.
+  Proof.
+    induction raw as [|[rxn sto] raw IH]; cbn [build_from raw_rhs]; intros acc v Hs.
+    - ring.
+    - rewrite IH; [|intros r s c f H1 H2; apply (Hs r s c f); [right; exact H1|exact H2]].
+      rewrite add_rxn_sum; [ring|]. intros c f Hin. apply (Hs rxn sto c f); [left; reflexivity|exact Hin].
+  Qed.
+
+  (** the sums over the two cache tables are the model's right-hand side, provided the
+      parameter-only computed coefficients still have their cache-time value *)
+  Theorem tables_rhs raw v :
+    (forall rxn sto cpd f, In (rxn, sto) raw -> In (cpd, f) sto -> CoefStable f) ->
+    tables_sum (build_tables fsem parnames env0 raw) v == raw_rhs fsem env raw v.
+  Proof.
+    intros Hs. unfold build_tables. rewrite build_from_sum; [|exact Hs].
+    unfold tables_sum. cbn [fst snd stat_sum dyn_sum]. ring.
+  Qed.
+
+  Theorem every_parameter_setting_partial F m raw eqs :
+    m_stoich m = fst (build_tables fsem parnames env0 raw) ->
+    m_dyn m = snd (build_tables fsem parnames env0 raw) ->
+    (forall rxn sto cpd f, In (rxn, sto) raw -> In (cpd, f) sto -> CoefStable f) ->
+    Resolved fsem m env ->
+    to_symbolic fsym F m = SymOk eqs ->
+    Forall2 (fun e v => eval env e == raw_rhs fsem env raw v) eqs (m_vars m).
+  Proof.
+    intros H1 H2 Hs Hres H.
+    pose proof (to_symbolic_sound F m eqs Hres H) as Hsound.
+    eapply Forall2_imp; [|exact Hsound]. cbn beta. intros e v He.
+    rewrite He. rewrite <- (tables_rhs raw v Hs). unfold num_rhs, tables_sum. rewrite H1, H2. reflexivity.
+  Qed.
+End Sound.
+
+(** ======================================================================================== *)
+(** the equations mention base symbols only *)
+Section Syms.
+  Variable fsym : fnid -> list expr -> option expr.
+  (** the translation introduces no symbols of its own *)
+  Hypothesis fsym_syms : forall f es e, fsym f es = Some e ->
+    forall n, In n (syms e) -> exists e', In e' es /\ In n (syms e').
+  Variable B : list name.
+
+  Definition TabIn (tab : list (name * expr)) : Prop := forall k e, lookup k tab = Some e -> incl (syms e) B.
+
+  Lemma TabIn_cons tab k e : TabIn tab -> incl (syms e) B -> TabIn ((k, e) :: tab).
+  Proof.
+    intros Ht He k' e'. cbn [lookup]. destruct (N.eqb k k'); intros H.
+    - injection H as H. subst. exact He.
+    - eapply Ht. exact H.
+  Qed.
+
+  Lemma conv_one_syms tab c e : TabIn tab -> conv_one fsym tab c = inr e -> incl (syms e) B.
+  Proof.
+    unfold conv_one. intros Ht H.
+    destruct (lookup_all tab (c_args c)) as [es|] eqn:E; [|discriminate].
+    destruct (fsym (c_fn c) es) as [e'|] eqn:E2; [|discriminate].
+    injection H as H. subst e'. intros n Hn.
+    destruct (fsym_syms _ _ _ E2 n Hn) as [e' [He' Hn']].
+    apply lookup_all_Forall2 in E.
+    clear E2 Hn. induction E as [|x a es args H1 _ IH]; [destruct He'|].
+    destruct He' as [He'|He']; [subst x; exact (Ht _ _ H1 n Hn')|exact (IH He')].
+  Qed.
+
+  Lemma insert_derived_syms ds : forall tab tab', TabIn tab -> insert_derived fsym ds tab = inr tab' -> TabIn tab'.
+  Proof.
+    induction ds as [|[k c] ds IH]; cbn [insert_derived]; intros tab tab' Ht H.
+    - injection H as H. subst. exact Ht.
+    - destruct (conv_one fsym tab c) as [x|e] eqn:E; [discriminate|].
+      eapply IH; [|exact H]. apply TabIn_cons; [exact Ht|eapply conv_one_syms; eassumption].
+  Qed.
+
+  Lemma conv_rxns_syms tab rs : forall rx, TabIn tab -> conv_rxns fsym tab rs = inr rx -> TabIn rx.
+  Proof.
+    induction rs as [|[k c] rs IH]; cbn [conv_rxns]; intros rx Ht H.
+    - injection H as H. subst. intros k e Hl. discriminate.
+    - destruct (conv_one fsym tab c) as [x|e] eqn:E; [discriminate|].
+      destruct (conv_rxns fsym tab rs) as [x|l] eqn:E2; [discriminate|].
+      injection H as H. subst rx. apply TabIn_cons; [eapply IH; [exact Ht|reflexivity]|eapply conv_one_syms; eassumption].
+  Qed.
+
+  Lemma stat_row_syms rxns cpd st : forall eqs eqs', TabIn rxns -> TabIn eqs -> stat_row rxns cpd st eqs = inr eqs' -> TabIn eqs'.
+  Proof.
+    induction st as [|[r n] st IH]; cbn [stat_row]; intros eqs eqs' Hr He H.
+    - injection H as H. subst. exact He.
+    - destruct (lookup r rxns) as [re|] eqn:E; [|discriminate].
+      eapply IH; [exact Hr| |exact H]. apply TabIn_cons; [exact He|].
+      cbn [syms]. intros z Hz. unfold eq_get in Hz.
+      apply in_app_or in Hz. destruct Hz as [Hz|Hz].
+      + destruct (lookup cpd eqs) as [e0|] eqn:E0; [exact (He _ _ E0 z Hz)|destruct Hz].
+      + cbn [app] in Hz. exact (Hr _ _ E z Hz).
+  Qed.
+
+  Lemma stat_loop_syms rxns tbl : forall eqs eqs', TabIn rxns -> TabIn eqs -> stat_loop rxns tbl eqs = inr eqs' -> TabIn eqs'.
+  Proof.
+    induction tbl as [|[cpd st] tbl IH]; cbn [stat_loop]; intros eqs eqs' Hr He H.
+    - injection H as H. subst. exact He.
+    - destruct (stat_row rxns cpd st eqs) as [x|eqs1] eqn:E; [discriminate|].
+      eapply IH; [exact Hr| |exact H]. exact (stat_row_syms _ _ _ _ _ Hr He E).
+  Qed.
+  Lemma dyn_row_syms tab rxns cpd ds : forall eqs eqs',
+    TabIn tab -> TabIn rxns -> TabIn eqs -> dyn_row fsym tab rxns cpd ds eqs = inr eqs' -> TabIn eqs'.
+  Proof.
+    induction ds as [|[r c] ds IH]; cbn [dyn_row]; intros eqs eqs' Ht Hr He H.
+    - injection H as H. subst. exact He.
+    - destruct (conv_one fsym tab c) as [x|ce] eqn:Ec; [discriminate|].
+      destruct (lookup r rxns) as [re|] eqn:E; [|discriminate].
+      eapply IH; [exact Ht|exact Hr| |exact H]. apply TabIn_cons; [exact He|].
+      cbn [syms]. intros z Hz. unfold eq_get in Hz.
+      apply in_app_or in Hz. destruct Hz as [Hz|Hz].
+      + destruct (lookup cpd eqs) as [e0|] eqn:E0; [exact (He _ _ E0 z Hz)|destruct Hz].
+      + apply in_app_or in Hz. destruct Hz as [Hz|Hz]; [exact (conv_one_syms _ _ _ Ht Ec z Hz)|exact (Hr _ _ E z Hz)].
+  Qed.
+
+  Lemma dyn_loop_coef_syms tab rxns tbl : forall eqs eqs',
+    TabIn tab -> TabIn rxns -> TabIn eqs -> dyn_loop_coef fsym tab rxns tbl eqs = inr eqs' -> TabIn eqs'.
+  Proof.
+    induction tbl as [|[cpd ds] tbl IH]; cbn [dyn_loop_coef]; intros eqs eqs' Ht Hr He H.
+    - injection H as H. subst. exact He.
+    - destruct (dyn_row fsym tab rxns cpd ds eqs) as [x|eqs1] eqn:E; [discriminate|].
+      eapply IH; [exact Ht|exact Hr| |exact H]. exact (dyn_row_syms _ _ _ _ _ _ Ht Hr He E).
+  Qed.
+
+  Lemma dyn_part_syms F tab rxns tbl eqs eqs' :
+    TabIn tab -> TabIn rxns -> TabIn eqs -> dyn_part fsym F tab rxns tbl eqs = inr eqs' -> TabIn eqs'.
+  Proof.
+    unfold dyn_part. intros Ht Hr He H. destruct (sf_dyn F).
+    - destruct (dyn_loop tab rxns tbl); [discriminate|]. injection H as H. subst. exact He.
+    - exact (dyn_loop_coef_syms _ _ _ _ _ Ht Hr He H).
+    - discriminate.
+  Qed.
+End Syms.
+
+Theorem to_symbolic_syms fsym
+  (fsym_syms : forall f es e, fsym f es = Some e -> forall n, In n (syms e) -> exists e', In e' es /\ In n (syms e'))
+  F m eqs :
+  to_symbolic fsym F m = SymOk eqs -> forall e, In e eqs -> incl (syms e) (base_names m).
+Proof.
+  intros H. unfold to_symbolic in H.
+  destruct (der_sequence F m) as [ds|] eqn:Eds; [|discriminate].
+  destruct (insert_derived fsym ds (base_symbols m)) as [x|tab] eqn:Etab; [discriminate|].
+  destruct (conv_rxns fsym tab (m_rxn m)) as [x|rxns] eqn:Erx; [discriminate|].
+  destruct (stat_loop rxns (m_stoich m) []) as [x|eqs0] eqn:Est; [discriminate|].
+  destruct (dyn_part fsym F tab rxns (m_dyn m) eqs0) as [x|eqs1] eqn:Edy; [discriminate|].
+  destruct (lookup_all eqs1 (m_vars m)) as [l|] eqn:El; [|discriminate].
+  injection H as H. subst l.
+  assert (Hb : TabIn (base_names m) (base_symbols m)).
+  { intros k e Hl. apply lookup_base in Hl. destruct Hl as [H1 H2]. subst e. cbn [syms].
+    intros z [Hz|[]]. subst z. exact H2. }
+  pose proof (insert_derived_syms fsym fsym_syms _ _ _ _ Hb Etab) as Htab.
+  pose proof (conv_rxns_syms fsym fsym_syms _ _ _ _ Htab Erx) as Hrx.
+  assert (He0 : TabIn (base_names m) []) by (intros k e Hl; discriminate).
+  pose proof (stat_loop_syms (base_names m) _ _ _ _ Hrx He0 Est) as Heqs0.
+  pose proof (dyn_part_syms fsym fsym_syms (base_names m) _ _ _ _ _ _ Htab Hrx Heqs0 Edy) as Heqs.
+  apply lookup_all_Forall2 in El.
+  intros e Hin. induction El as [|x a es args H1 _ IH]; [destruct Hin|].
+  destruct Hin as [Hin|Hin]; [subst x; exact (Heqs _ _ H1)|exact (IH Hin)].
+Qed.
+
+Lemma to_symbolic_length fsym F m eqs : to_symbolic fsym F m = SymOk eqs -> length eqs = length (m_vars m).
+Proof.
+  intros H. unfold to_symbolic in H.
+  destruct (der_sequence F m) as [ds|]; [|discriminate].
+  destruct (insert_derived fsym ds (base_symbols m)) as [x|tab]; [discriminate|].
+  destruct (conv_rxns fsym tab (m_rxn m)) as [x|rxns]; [discriminate|].
+  destruct (stat_loop rxns (m_stoich m) []) as [x|eqs0]; [discriminate|].
+  destruct (dyn_part fsym F tab rxns (m_dyn m) eqs0) as [x|eqs1]; [discriminate|].
+  destruct (lookup_all eqs1 (m_vars m)) as [l|] eqn:El; [|discriminate].
+  injection H as H. subst l. apply lookup_all_Forall2 in El.
+  induction El; cbn [length]; [reflexivity|rewrite IHEl; reflexivity].
+Qed.
+
+(** ======================================================================================== *)
+(** success: a convertible model converts in dependency order, whatever the declaration order *)
+Section Success.
+  Variable fsym : fnid -> list expr -> option expr.
+
+  Definition der_names (m : smodel) : list name := map fst (m_der m).
+
+  (** every clause reads [m_der]/[m_rxn] through membership only: the declaration order of the
+      derived values and reactions is irrelevant to it *)
+  Record Convertible (m : smodel) : Prop := {
+    cv_der_args : forall k c, In (k, c) (m_der m) -> forall a, In a (c_args c) -> In a (base_names m) \/ In a (der_names m) ;
+    cv_rxn_args : forall k c, In (k, c) (m_rxn m) -> forall a, In a (c_args c) -> In a (base_names m) \/ In a (der_names m) ;
+    cv_translate : forall k c, In (k, c) (m_der m ++ m_rxn m) ->
+                   forall es, length es = length (c_args c) -> fsym (c_fn c) es <> None ;
+    cv_stoich_rxn : forall cpd row r n, In (cpd, row) (m_stoich m) -> In (r, n) row -> In r (map fst (m_rxn m)) ;
+    cv_no_dyn : forall cpd row, In (cpd, row) (m_dyn m) -> row = [] ;
+    cv_covered : forall v, In v (m_vars m) -> exists row, In (v, row) (m_stoich m) /\ row <> []
+  }.
+
+  (** what property C02 proves of [cache.order] for every declaration order: it lists every derived
+      value, each after the derived values it names *)
+  Definition OrderOk (m : smodel) : Prop :=
+    (forall k, In k (der_names m) -> In k (m_order m)) /\
+    (forall pre k post c, m_order m = pre ++ k :: post -> lookup k (m_der m) = Some c ->
+       forall a, In a (c_args c) -> In a (der_names m) -> In a pre).
+
+  Variable m : smodel.
+  Hypothesis Hconv : Convertible m.
+  Hypothesis Hord : OrderOk m.
+
+  Definition Has (tab : list (name * expr)) (pre : list name) : Prop :=
+    forall a, In a (base_names m) \/ (In a pre /\ In a (der_names m)) -> lookup a tab <> None.
+
+  Lemma Has_cons tab pre k e : Has tab pre -> Has ((k, e) :: tab) (pre ++ [k]).
+  Proof.
+    intros H a Ha. cbn [lookup]. destruct (N.eqb k a) eqn:E; [discriminate|].
+    apply H. destruct Ha as [Ha|[Ha Hd]]; [left; exact Ha|right].
+    split; [|exact Hd]. apply in_app_or in Ha. destruct Ha as [Ha|[Ha|[]]]; [exact Ha|].
+    apply N.eqb_neq in E. contradiction.
+  Qed.
+
+  Lemma conv_one_total tab c :
+    (forall a, In a (c_args c) -> lookup a tab <> None) ->
+    (forall es, length es = length (c_args c) -> fsym (c_fn c) es <> None) ->
+    exists e, conv_one fsym tab c = inr e.
+  Proof.
+    intros Ha Hf. unfold conv_one. destruct (lookup_all_total tab (c_args c) Ha) as [es [E1 E2]].
+    rewrite E1. destruct (fsym (c_fn c) es) as [e|] eqn:E; [exists e; reflexivity|exfalso; exact (Hf es E2 E)].
+  Qed.
+
+  Lemma pick_insert_ok post : forall pre tab,
+    m_order m = pre ++ post -> Has tab pre ->
+    exists tab', insert_derived fsym (pick_in_order post (m_der m)) tab = inr tab' /\ Has tab' (pre ++ post).
+  Proof.
+    induction post as [|k post IH]; intros pre tab Ho Ht; cbn [pick_in_order insert_derived].
+    - exists tab. split; [reflexivity|rewrite app_nil_r; exact Ht].
+    - assert (Ho' : m_order m = (pre ++ [k]) ++ post) by (rewrite <- app_assoc; exact Ho).
+      destruct (lookup k (m_der m)) as [c|] eqn:E.
+      + cbn [insert_derived].
+        destruct (conv_one_total tab c) as [e Ee].
+        * intros a Ha. apply Ht. pose proof (lookup_In _ _ _ E) as Hin.
+          destruct (cv_der_args m Hconv k c Hin a Ha) as [Hb|Hd]; [left; exact Hb|right].
+          split; [|exact Hd]. exact (proj2 Hord pre k post c Ho E a Ha Hd).
+        * apply (cv_translate m Hconv k c). apply in_or_app. left. apply lookup_In. exact E.
+        * rewrite Ee. destruct (IH (pre ++ [k]) ((k, e) :: tab) Ho' (Has_cons _ _ _ _ Ht)) as [tab' [H1 H2]].
+          exists tab'. split; [exact H1|]. rewrite <- app_assoc in H2. exact H2.
+      + assert (Ht' : Has tab (pre ++ [k])).
+        { intros a Ha. apply Ht. destruct Ha as [Ha|[Ha Hd]]; [left; exact Ha|right]. split; [|exact Hd].
+          apply in_app_or in Ha. destruct Ha as [Ha|[Ha|[]]]; [exact Ha|]. subst a.
+          apply lookup_None in E. contradiction. }
+        destruct (IH (pre ++ [k]) tab Ho' Ht') as [tab' [H1 H2]].
+        exists tab'. split; [exact H1|]. rewrite <- app_assoc in H2. exact H2.
+  Qed.
+
+  Lemma conv_rxns_total tab rs :
+    (forall k c, In (k, c) rs -> exists e, conv_one fsym tab c = inr e) ->
+    exists rx, conv_rxns fsym tab rs = inr rx /\ map fst rx = map fst rs.
+  Proof.
+    induction rs as [|[k c] rs IH]; intros H; cbn [conv_rxns].
+    - exists []. split; reflexivity.
+    - destruct (H k c (or_introl eq_refl)) as [e Ee]. rewrite Ee.
+      destruct IH as [rx [E1 E2]]; [intros k' c' Hin; apply (H k'); right; exact Hin|].
+      rewrite E1. exists ((k, e) :: rx). split; [reflexivity|cbn [map fst]; rewrite E2; reflexivity].
+  Qed.
+
+  Lemma stat_row_total rxns cpd st : forall eqs,
+    (forall r n, In (r, n) st -> lookup r rxns <> None) ->
+    exists eqs', stat_row rxns cpd st eqs = inr eqs' /\
+      (forall v, lookup v eqs <> None -> lookup v eqs' <> None) /\ (st <> [] -> lookup cpd eqs' <> None).
+  Proof.
+    induction st as [|[r n] st IH]; intros eqs H; cbn [stat_row].
+    - exists eqs. split; [reflexivity|]. split; [intros v Hv; exact Hv|intros Hne; exfalso; apply Hne; reflexivity].
+    - destruct (lookup r rxns) as [re|] eqn:E; [|exfalso; exact (H r n (or_introl eq_refl) E)].
+      destruct (IH ((cpd, EAdd (eq_get eqs cpd) (EMul (EConst n) re)) :: eqs)) as [eqs' [E1 [E2 E3]]];
+        [intros r' n' Hin; apply (H r' n'); right; exact Hin|].
+      exists eqs'. split; [exact E1|]. split.
+      + intros v Hv. apply E2. cbn [lookup]. destruct (N.eqb cpd v); [discriminate|exact Hv].
+      + intros _. apply E2. cbn [lookup]. rewrite N.eqb_refl. discriminate.
+  Qed.
+
+  Lemma stat_loop_total rxns tbl : forall eqs,
+    (forall cpd row r n, In (cpd, row) tbl -> In (r, n) row -> lookup r rxns <> None) ->
+    exists eqs', stat_loop rxns tbl eqs = inr eqs' /\
+      (forall v, lookup v eqs <> None -> lookup v eqs' <> None) /\
+      (forall cpd row, In (cpd, row) tbl -> row <> [] -> lookup cpd eqs' <> None).
+  Proof.
+    induction tbl as [|[cpd st] tbl IH]; intros eqs H; cbn [stat_loop].
+    - exists eqs. split; [reflexivity|]. split; [intros v Hv; exact Hv|intros c r []].
+    - destruct (stat_row_total rxns cpd st eqs) as [eqs1 [E1 [E2 E3]]];
+        [intros r n Hin; apply (H cpd st r n); [left; reflexivity|exact Hin]|].
+      rewrite E1.
+      destruct (IH eqs1) as [eqs' [F1 [F2 F3]]];
+        [intros c row r n H1 H2; apply (H c row r n); [right; exact H1|exact H2]|].
+      exists eqs'. split; [exact F1|]. split.
+      + intros v Hv. apply F2. apply E2. exact Hv.
+      + intros c row [Hin|Hin] Hne; [injection Hin as H1 H2; subst; apply F2; apply E3; exact Hne|exact (F3 c row Hin Hne)].
+  Qed.
+
+  Lemma dyn_loop_empty tab rxns (tbl : list (name * list (name * comp))) :
+    (forall cpd row, In (cpd, row) tbl -> row = []) -> dyn_loop tab rxns tbl = None.
+  Proof.
+    induction tbl as [|[c row] tbl IH]; intros H; cbn [dyn_loop]; [reflexivity|].
+    rewrite (H c row (or_introl eq_refl)). apply IH. intros c' r' Hin. apply (H c'). right. exact Hin.
+  Qed.
+
+  Lemma dyn_loop_coef_empty tab rxns (tbl : list (name * list (name * comp))) eqs :
+    (forall cpd row, In (cpd, row) tbl -> row = []) -> dyn_loop_coef fsym tab rxns tbl eqs = inr eqs.
+  Proof.
+    induction tbl as [|[c row] tbl IH]; intros H; cbn [dyn_loop_coef]; [reflexivity|].
+    rewrite (H c row (or_introl eq_refl)). cbn [dyn_row]. apply IH. intros c' r' Hin. apply (H c'). right. exact Hin.
+  Qed.
+
+  Definition dyn_known (F : sym_facts) : bool := match sf_dyn F with DynUnknown => false | _ => true end.
+
+  Lemma dyn_part_empty F tab rxns (tbl : list (name * list (name * comp))) eqs :
+    dyn_known F = true ->
+    (forall cpd row, In (cpd, row) tbl -> row = []) -> dyn_part fsym F tab rxns tbl eqs = inr eqs.
+  Proof.
+    unfold dyn_known. intros HF H. unfold dyn_part. destruct (sf_dyn F).
+    - rewrite (dyn_loop_empty tab rxns tbl H). reflexivity.
+    - apply dyn_loop_coef_empty. exact H.
+    - discriminate.
+  Qed.
+
+  Theorem convertible_converts F :
+    sf_order F = OrdDependency -> dyn_known F = true -> exists eqs, to_symbolic fsym F m = SymOk eqs.
+  Proof.
+    intros HF HFd. unfold to_symbolic, der_sequence. rewrite HF.
+    destruct (pick_insert_ok (m_order m) [] (base_symbols m) eq_refl) as [tab [Etab Htab]].
+    { intros a [Ha|[[] _]]. apply lookup_Some_key. unfold base_symbols. rewrite map_map. cbn [fst]. rewrite map_id. exact Ha. }
+    rewrite Etab. cbn [app] in Htab.
+    assert (Hall : forall a, In a (base_names m) \/ In a (der_names m) -> lookup a tab <> None).
+    { intros a [Ha|Ha]; apply Htab; [left; exact Ha|right; split; [apply (proj1 Hord); exact Ha|exact Ha]]. }
+    destruct (conv_rxns_total tab (m_rxn m)) as [rxns [Erx Hkeys]].
+    { intros k c Hin. apply conv_one_total.
+      - intros a Ha. apply Hall. exact (cv_rxn_args m Hconv k c Hin a Ha).
+      - apply (cv_translate m Hconv k c). apply in_or_app. right. exact Hin. }
+    rewrite Erx.
+    destruct (stat_loop_total rxns (m_stoich m) []) as [eqs1 [Est [_ Hcov]]].
+    { intros cpd row r n H1 H2. apply lookup_Some_key. rewrite Hkeys. exact (cv_stoich_rxn m Hconv cpd row r n H1 H2). }
+    rewrite Est. rewrite (dyn_part_empty F tab rxns (m_dyn m) eqs1 HFd (cv_no_dyn m Hconv)).
+    destruct (lookup_all_total eqs1 (m_vars m)) as [l [El _]].
+    { intros v Hv. destruct (cv_covered m Hconv v Hv) as [row [H1 H2]]. exact (Hcov v row H1 H2). }
+    rewrite El. exists l. reflexivity.
+  Qed.
+End Success.
